@@ -568,21 +568,7 @@ def run(ctx, chk, tier="quick"):
                     chk.ob("C13.O4", True, where_of(rise, loop), "after the row loop the lists %s are %s" % (names_, "all changed alike or not used" if changed else "not changed"),
                            "lists indexed by the same series id stay aligned", key="compute_rise_offsets|parallel-lists-after")
                 # zeta_intervals element: (index of start, index of thru + 1) of the same row
-    # ---- start_epoch written with each offset / crossing (rise + recession)
-    for f, tabs, kind in ((rise, ("rising_interval", "rising_interval_zeta"), "rise"),
-                          (ctx.func("recession.compute_offsets"), ("recession_interval", "recession_interval_zeta"), "recession")):
-        flow = Flow.of(f)
-        call = [c for c in ast.walk(f.node) if isinstance(c, ast.Call) and ctx.cg.resolve_callee(f, c.func) == ["fit_offsets.get_series_time_offsets"]]
-        if len(call) != 1:
-            chk.indeterminate("C13.O3", where_of(f, f.node), "call of get_series_time_offsets not found")
-            continue
-        st = enclosing_stmt(call[0])
-        if not (isinstance(st, ast.Assign) and isinstance(st.targets[0], ast.Tuple) and len(st.targets[0].elts) == 3):
-            chk.indeterminate("C13.O3", where_of(f, st), "result of get_series_time_offsets not unpacked into three names")
-            continue
-        ids_n, offs_n, map_n = [e.id for e in st.targets[0].elts]
-        series_arg = call[0].args[0] if call[0].args else None
-        _lineage_of_stored_rows(ctx, chk, f, flow, kind, tabs, ids_n, offs_n, map_n, series_arg)
+    stored_rows_lineage(ctx, chk, "C13.O3")
     # ---- recession kind
     rec = ctx.func("recession.compute_offsets")
     kq = None
@@ -707,7 +693,25 @@ def _series_pair(ctx, f, flow, series_expr):
         x, y = aligned[lists[0]], aligned[lists[1]]
     return {"loop": row_loop, "x": x, "y": y, "appended": appended, "aligned": aligned, "lists": lists}
 
-def _lineage_of_stored_rows(ctx, chk, f, flow, kind, tabs, ids_n, offs_n, map_n, series_arg):
+def stored_rows_lineage(ctx, chk, rule):
+    """start_epoch, offset, crossing and level id written with each row of the four fit tables (rise + recession)"""
+    for f, tabs, kind in ((ctx.func("rise.compute_rise_offsets"), ("rising_interval", "rising_interval_zeta"), "rise"),
+                          (ctx.func("recession.compute_offsets"), ("recession_interval", "recession_interval_zeta"), "recession")):
+        flow = Flow.of(f)
+        call = [c for c in ast.walk(f.node) if isinstance(c, ast.Call) and ctx.cg.resolve_callee(f, c.func) == ["fit_offsets.get_series_time_offsets"]]
+        if len(call) != 1:
+            chk.indeterminate(rule, where_of(f, f.node), "call of get_series_time_offsets not found")
+            continue
+        st = enclosing_stmt(call[0])
+        if not (isinstance(st, ast.Assign) and isinstance(st.targets[0], ast.Tuple) and len(st.targets[0].elts) == 3):
+            chk.indeterminate(rule, where_of(f, st), "result of get_series_time_offsets not unpacked into three names")
+            continue
+        ids_n, offs_n, map_n = [e.id for e in st.targets[0].elts]
+        series_arg = call[0].args[0] if call[0].args else None
+        _lineage_of_stored_rows(ctx, chk, f, flow, kind, tabs, ids_n, offs_n, map_n, series_arg, rule=rule)
+
+
+def _lineage_of_stored_rows(ctx, chk, f, flow, kind, tabs, ids_n, offs_n, map_n, series_arg, rule="C13.O3"):
     """Every row written to <kind>_interval / <kind>_interval_zeta carries the start of the interval whose
     series has the id in scope, the offset at that id's position, the crossing paired with that id and the
     level id that keys it.  Decided by resolving the stored expressions through (a) loop bindings
@@ -720,7 +724,7 @@ def _lineage_of_stored_rows(ctx, chk, f, flow, kind, tabs, ids_n, offs_n, map_n,
     # --- the row loop and its lists
     sp = _series_pair(ctx, f, flow, series_arg)
     if sp is None:
-        chk.indeterminate("C13.O3", where_of(f, f.node), "the list of series handed to get_series_time_offsets is not built by appends in one loop over the intervals")
+        chk.indeterminate(rule, where_of(f, f.node), "the list of series handed to get_series_time_offsets is not built by appends in one loop over the intervals")
         return
     row_loop = sp["loop"]
     appended = {k: [e for e, _top in v] for k, v in sp["appended"].items()}
@@ -886,7 +890,7 @@ def _lineage_of_stored_rows(ctx, chk, f, flow, kind, tabs, ids_n, offs_n, map_n,
                     if col_ in alias_:
                         pd.setdefault(alias_[col_], e_)
         if pd is None:
-            chk.indeterminate("C13.O3", where_of(f, s.call), "parameters of the INSERT into %s are not a literal dict" % s.stmt.table)
+            chk.indeterminate(rule, where_of(f, s.call), "parameters of the INSERT into %s are not a literal dict" % s.stmt.table)
             continue
         where = where_of(f, s.call)
         v = pd.get("start_epoch")
@@ -923,19 +927,19 @@ def _lineage_of_stored_rows(ctx, chk, f, flow, kind, tabs, ids_n, offs_n, map_n,
                 isinstance(n, ast.Subscript) and isinstance(n.value, ast.Name) and n.value.id in appended and isinstance(n.slice, ast.Name)
                 and role(n.slice)[0] in ("pos", "level", "crossing", "offset")
                 for n in _expanded_with_parents(flow, v, appended)):
-            chk.ob("C13.O3", False, where, "%s.start_epoch = %s: a per-row list indexed by something that is not a series id"
+            chk.ob(rule, False, where, "%s.start_epoch = %s: a per-row list indexed by something that is not a series id"
                    % (s.stmt.table, ast.unparse(flow.expand(v, keep=set(appended)))[:100]),
                    "start of the interval whose series carries that id", key="%s|%s|start_epoch" % (f.qualname, s.stmt.table),
                    why="the position in the returned ids (or a level id) is not an index into the caller's lists")
         elif v is None or not sids:
-            chk.indeterminate("C13.O3", where, "%s.start_epoch = %s: no series id (element of the returned ids / of a crossing list) in it"
+            chk.indeterminate(rule, where, "%s.start_epoch = %s: no series id (element of the returned ids / of a crossing list) in it"
                               % (s.stmt.table, ast.unparse(v) if v is not None else "?"))
         else:
             sid_node, sid_loop = sids[0]
             sid_text = sid_node.id if isinstance(sid_node, ast.Name) else ast.unparse(sid_node)
             r = resolve(v, sid_node.id if isinstance(sid_node, ast.Name) else ast.dump(flow.expand(sid_node, keep={ids_n})))
             if r is None:
-                chk.indeterminate("C13.O3", where, "%s.start_epoch = %s uses a list that is not appended exactly once per row" % (s.stmt.table, ast.unparse(v)))
+                chk.indeterminate(rule, where, "%s.start_epoch = %s uses a list that is not appended exactly once per row" % (s.stmt.table, ast.unparse(v)))
             else:
                 # strip int()/float() wrappers
                 core = r
@@ -951,11 +955,11 @@ def _lineage_of_stored_rows(ctx, chk, f, flow, kind, tabs, ids_n, offs_n, map_n,
                 unread_lookup = any(isinstance(n, ast.Subscript) and isinstance(n.value, ast.Name) and any(isinstance(c_, ast.Call) for c_ in ast.walk(n.slice))
                                     and index_lookup(n.slice) is None and lookup_defect(n.slice) is None for n in ast.walk(core))
                 if not good and unread_lookup:
-                    chk.indeterminate("C13.O3", where, "%s.start_epoch resolves to %s: an element looked up by something other than an exact position look-up" % (s.stmt.table, ast.unparse(core)[:80]))
+                    chk.indeterminate(rule, where, "%s.start_epoch resolves to %s: an element looked up by something other than an exact position look-up" % (s.stmt.table, ast.unparse(core)[:80]))
                 elif not good and not mentions_row:
-                    chk.indeterminate("C13.O3", where, "%s.start_epoch resolves to %s, which is not expressed in the row loop's variables" % (s.stmt.table, ast.unparse(core)[:80]))
+                    chk.indeterminate(rule, where, "%s.start_epoch resolves to %s, which is not expressed in the row loop's variables" % (s.stmt.table, ast.unparse(core)[:80]))
                 else:
-                    chk.ob("C13.O3", good, where, "%s.start_epoch = %s = %s for the row of series id %s" % (s.stmt.table, ast.unparse(v)[:60], ast.unparse(core)[:80], sid_text),
+                    chk.ob(rule, good, where, "%s.start_epoch = %s = %s for the row of series id %s" % (s.stmt.table, ast.unparse(v)[:60], ast.unparse(core)[:80], sid_text),
                            "start of the interval whose series carries that id", key="%s|%s|start_epoch" % (f.qualname, s.stmt.table),
                            why="an offset or crossing stored under another interval's start belongs to the wrong interval")
         sid_loop = sids[0][1] if sids else None
@@ -978,16 +982,21 @@ def _lineage_of_stored_rows(ctx, chk, f, flow, kind, tabs, ids_n, offs_n, map_n,
                         else:
                             verdict = False
             if verdict is None:
-                chk.indeterminate("C13.O3", where, "%s = %s: no element of the returned offsets in it" % (offcol, ast.unparse(ov) if ov is not None else "?"))
+                chk.indeterminate(rule, where, "%s = %s: no element of the returned offsets in it" % (offcol, ast.unparse(ov) if ov is not None else "?"))
             else:
-                chk.ob("C13.O3", verdict, where, "%s = %s" % (offcol, ast.unparse(ov)),
+                chk.ob(rule, verdict, where, "%s = %s" % (offcol, ast.unparse(ov)),
                        "the offset at the same position as the series id", key="%s|%s|offset-position" % (f.qualname, s.stmt.table))
         else:
             ccol = "mean_crossing_depth_mm" if kind == "rise" else "mean_crossing_time_s"
             cv, zv = pd.get(ccol), pd.get("discrete_zeta")
             rc, rz = roles_in(cv), roles_in(zv)
-            if not rc or not rz or sid_loop is None:
-                chk.indeterminate("C13.O3", where, "crossing = %s at level %s: not loop variables of the returned mapping" % (
+            zb_ = binding(zv) if isinstance(zv, ast.Name) else None
+            if zb_ is not None and zb_.kind == "counter":
+                chk.ob(rule, False, where, "level id written = %s, a running count of `%s`" % (ast.unparse(zv), ast.unparse(zb_.loop.iter)[:60]),
+                       "the key of the returned mapping under which the crossing is listed", key="%s|%s|crossing" % (f.qualname, s.stmt.table),
+                       why="levels crossed by a single interval are removed from the mapping, so its keys are not consecutive: counted from the lowest, every crossing above a removed level is stored one level too low and the stored offsets no longer minimise the spread of the stored crossings")
+            elif not rc or not rz or sid_loop is None:
+                chk.indeterminate(rule, where, "crossing = %s at level %s: not loop variables of the returned mapping" % (
                     ast.unparse(cv) if cv is not None else "?", ast.unparse(zv) if zv is not None else "?"))
             else:
                 ok_c = list(rc) == ["crossing"] and all(lp is sid_loop for _, lp in rc["crossing"])
@@ -1004,7 +1013,7 @@ def _lineage_of_stored_rows(ctx, chk, f, flow, kind, tabs, ids_n, offs_n, map_n,
                         ok_z = rk == "level" and lk_ is lvl_loop
                     else:
                         ok_z = False
-                chk.ob("C13.O3", ok_c and ok_z, where, "crossing = %s at level %s" % (ast.unparse(cv), ast.unparse(zv)),
+                chk.ob(rule, ok_c and ok_z, where, "crossing = %s at level %s" % (ast.unparse(cv), ast.unparse(zv)),
                        "the crossing value paired with that series id, at the level id that keys it", key="%s|%s|crossing" % (f.qualname, s.stmt.table))
 
 def _expanded_with_parents(flow, v, keep):
